@@ -71,6 +71,12 @@ type Engine struct {
 	known     map[*Term]bool
 	arena     []Val
 	sp        int
+	cellSeq   uint32
+	// shared-state monitor (rt.H.Go): phase > 0 while a pipeline runs
+	goPhase   int
+	goBarrier uint32
+	goWrites  map[*Cell]int
+	goReads   map[*Cell]int
 	consts    map[*ssa.Const]Val
 	steps     int
 	maxSteps  int
@@ -193,7 +199,8 @@ func (e *Engine) zero(t types.Type) Val {
 }
 
 func (e *Engine) newCell(t types.Type) *Cell {
-	c := &Cell{typ: t, epoch: e.epoch}
+	e.cellSeq++
+	c := &Cell{typ: t, epoch: e.epoch, seq: e.cellSeq}
 	if isReflectValue(t) {
 		c.val = RV{}
 		return c
@@ -216,7 +223,7 @@ func (e *Engine) newCell(t types.Type) *Cell {
 			z := e.zero(et)
 			block := make([]Cell, n)
 			for i := range c.kids {
-				block[i] = Cell{typ: et, val: z, epoch: e.epoch, up: c, upIdx: int32(i)}
+				block[i] = Cell{typ: et, val: z, epoch: e.epoch, up: c, upIdx: int32(i), seq: e.cellSeq}
 				c.kids[i] = &block[i]
 			}
 		} else {
@@ -234,7 +241,21 @@ func (e *Engine) newCell(t types.Type) *Cell {
 	return c
 }
 
+func (e *Engine) shared(c *Cell) bool {
+	return c.epoch == 0 || c.epoch != e.epoch || c.seq <= e.goBarrier
+}
+
 func (e *Engine) load(c *Cell) Val {
+	if e.goPhase > 0 && c.kids == nil && !c.ro && e.shared(c) {
+		if w, ok := e.goWrites[c]; ok && w != e.goPhase {
+			e.path.noteConflict("read of state written by another pipeline in " + e.curFuncName())
+		}
+		if _, ok := e.goReads[c]; !ok {
+			e.goReads[c] = e.goPhase
+		} else if e.goReads[c] != e.goPhase {
+			e.goReads[c] = -1 // read by several pipelines
+		}
+	}
 	if isAggType(c.typ) {
 		a := Agg{f: make([]Val, len(c.kids))}
 		for i, k := range c.kids {
@@ -261,6 +282,15 @@ func (e *Engine) store(c *Cell, v Val) {
 			e.store(k, a.f[i])
 		}
 		return
+	}
+	if e.goPhase > 0 && e.shared(c) {
+		if w, ok := e.goWrites[c]; ok && w != e.goPhase {
+			e.path.noteConflict("write to state written by another pipeline in " + e.curFuncName())
+		}
+		if r, ok := e.goReads[c]; ok && r != e.goPhase {
+			e.path.noteConflict("write to state read by another pipeline in " + e.curFuncName())
+		}
+		e.goWrites[c] = e.goPhase
 	}
 	if c.epoch == 0 && !e.inInit {
 		e.journal = append(e.journal, journalEntry{c, c.val})
@@ -1691,6 +1721,16 @@ func (e *Engine) unop(fr *frame, x *ssa.UnOp) Val {
 func (e *Engine) checkView(v Val, t types.Type) Val {
 	switch t.Underlying().(type) {
 	case *types.Map:
+		if p, isPtr := v.(Ptr); isPtr {
+			// a map value read from memory that holds "the map's pointer" (see
+			// reflect.Value.Pointer on maps)
+			if p.c == nil {
+				return (*MapObj)(nil)
+			}
+			if mo, ok := p.c.val.(*MapObj); ok {
+				v = mo
+			}
+		}
 		if m, ok := v.(*MapObj); ok && m != nil && m.kt != nil {
 			kt := t.Underlying().(*types.Map).Key()
 			if !shapeCompatible(m.kt, kt) {
